@@ -356,18 +356,6 @@ func mapObjectProperties(mm map[string][]byte, o *Object) (hasData bool, err err
 		}
 		hasData = true
 	}
-	if o.Tag != nil {
-		if mm["tag"], err = gobEncodeItem(o.Tag); err != nil {
-			return hasData, err
-		}
-		hasData = true
-	}
-	if !o.Updated.IsZero() {
-		if mm["updated"], err = o.Updated.GobEncode(); err != nil {
-			return hasData, err
-		}
-		hasData = true
-	}
 	if o.URL != nil {
 		if mm["url"], err = gobEncodeItemOrLink(o.URL); err != nil {
 			return hasData, err
